@@ -529,7 +529,7 @@ func evalBFault(c BFaultCase, p *progen.Program, ref *progen.RefResult) (viol []
 	for _, o := range r1.Obs {
 		rel := strings.TrimPrefix(o.MdPath, r1.PsDir+"/")
 		if o.How == "complete" && done[rel] && o.Key != f.Job {
-			completedBefore[o.Key] = true
+			completedBefore[keyIdent(o.Key)] = true
 		}
 	}
 	r2 := RunB(p, BOptions{Dir: r1.Dir, Timeout: 90 * time.Second})
@@ -545,7 +545,7 @@ func evalBFault(c BFaultCase, p *progen.Program, ref *progen.RefResult) (viol []
 	}
 	var rerun []string
 	for _, o := range r2.Obs {
-		if completedBefore[o.Key] {
+		if completedBefore[keyIdent(o.Key)] {
 			rerun = append(rerun, o.Key)
 		}
 	}
@@ -795,7 +795,7 @@ func evalBCrash(c BCrashCase, p *progen.Program, base *bBaseline) (viol []string
 	recorded := map[string]bool{}
 	for _, o := range r1.Obs {
 		if o.How == "complete" && done[strings.TrimPrefix(o.MdPath, r1.PsDir+"/")] {
-			recorded[o.Key] = true
+			recorded[keyIdent(o.Key)] = true
 		}
 	}
 	r2 := RunB(p, BOptions{Dir: r1.Dir, RemoveLock: true, VdrMode: vdrModeOf(c.Shape), Timeout: 60 * time.Second, Cores: c.Cores})
@@ -834,7 +834,7 @@ func evalBCrash(c BCrashCase, p *progen.Program, base *bBaseline) (viol []string
 	}
 	var rerun []string
 	for _, o := range r2.Obs {
-		if recorded[o.Key] {
+		if recorded[keyIdent(o.Key)] {
 			rerun = append(rerun, o.Key)
 		}
 	}
